@@ -156,7 +156,9 @@ def l1_strand_votes():
     def clean(ps):
         f = sum(1 for p in ps if vote(p) == "+")
         r = sum(1 for p in ps if vote(p) == "-")
-        return "-" if (f == 0 and r > 0) else ("+" if (f > 0 and r == 0) else ".")
+        # "all splice sites must be canonical from the same strand, not just the majority" (the function's own comment; the documented
+        # meaning of --report_canonical only_canonical): an intron that is canonical on neither strand makes the chain unclean
+        return "-" if (r == len(ps) and r > 0) else ("+" if (f == len(ps) and f > 0) else ".")
     bad = []
     n = 0
     special = sorted(FWD | REV) + [("AT", "AG"), ("GC", "AC"), ("CT", "AT"), ("GT", "GC"), ("GT", "AC"), ("GT", "CC"), ("CC", "GG")]
@@ -410,10 +412,15 @@ def novel_world(swap=False):
             ("minusT2", "chr2", 1000, "-", "-"), ("plusA2", "chr2", 4000, "+", "+"), ("ncT2", "chr2", 7000, "nc", "-"),
             ("ncA2", "chr2", 10000, "nc", "+"),
             # as many '+' canonical as '-' canonical introns: the splice sites are uninformative, the tail decides
-            ("tieA", "chr1", 16000, "tie", "+"), ("tieT", "chr1", 19000, "tie", "-"), ("tieT2", "chr2", 16000, "tie", "-")]
+            ("tieA", "chr1", 16000, "tie", "+"), ("tieT", "chr1", 19000, "tie", "-"), ("tieT2", "chr2", 16000, "tie", "-"),
+            # two introns canonical on '+' and a third one canonical on neither strand: the strand is clear, the transcript is not canonical
+            ("mixA", "chr2", 19000, "mix", "+")]
     for name, chrom, base, kind, tail in loci:
-        blocks = W.exons(base, [0, 1, 2])
-        if kind == "tie":
+        blocks = W.exons(base, [0, 1, 2]) if kind != "mix" else W.exons(base, [0, 1, 2, 3])
+        if kind == "mix":
+            W.add_sites_for_blocks(w, chrom, blocks[:3], "+")
+            W.add_sites_for_blocks(w, chrom, blocks[2:], "nc")
+        elif kind == "tie":
             W.add_sites_for_blocks(w, chrom, blocks[:2], "+")
             W.add_sites_for_blocks(w, chrom, blocks[1:], "-")
         else:
@@ -524,11 +531,15 @@ def pipeline_case(args):
             if canon != exp:
                 errs.append(("model-canonical:" + fn.split(".")[1], "%s %s strand %s introns %s: Canonical=%s, reference sequence says %s" %
                              (fn, tid, t["strand"], introns, canon, exp)))
+            # documented meaning of the level: only_canonical reports novel transcripts "which contain only canonical splice sites"
+            if "only_canonical" in extra and introns and not tid.startswith("T") and fn == "OUT.transcript_models.gtf" and exp != "True":
+                errs.append(("only-canonical-reports-noncanonical", "%s strand %s introns %s is reported under --report_canonical only_canonical "
+                             "although the reference sequence says not all of its introns are canonical" % (tid, t["strand"], introns)))
             # strand of novel spliced transcripts vs evidence
             if loci and introns and not tid.startswith("T"):
                 for name, chrom_, base, kind_, tail in loci:
                     if t["chr"] == chrom_ and ex[0][0] >= base and ex[-1][1] <= base + (3000 if base else 10 ** 9):
-                        site_strand = {"+": "+", "-": "-", "nc": ".", "tie": "."}[kind_]
+                        site_strand = {"+": "+", "-": "-", "nc": ".", "tie": ".", "mix": "+"}[kind_]
                         if site_strand != ".":
                             if t["strand"] != site_strand:
                                 errs.append(("novel-strand-vs-sites", "%s locus %s: strand %s but splice sites imply %s" %
